@@ -730,6 +730,18 @@ pub fn one_run(w: &Work, seed: u64, idx: u64, stats: &mut Stats) -> Option<u64> 
     if let (Some(a), Some(b)) = (instants.iter().min(), instants.iter().max()) {
         stats.add("c18.sim_span_seconds", (b - a) as u64);
     }
+    crate::report::inflight_note(|| {
+        Json::obj()
+            .set("property", Json::s("C18"))
+            .set("engine", Json::s("tzsim"))
+            .set("invariant", Json::s("process-death"))
+            .set("seed", Json::Int(seed as i128))
+            .set("run", Json::Int(idx as i128))
+            .set("zone", Json::s(&case.label))
+            .set("tzif_hex", Json::s(&hex(&case.bytes)))
+            .set("instants", Json::Arr(instants.iter().map(|t| Json::Int(*t as i128)).collect()))
+            .set("observed", Json::s("the process died while looking up in this zone"))
+    });
     match check_zone(&case, &z, &instants, &nanos, &knobs, &mut Some(stats)) {
         Ok(h) => {
             if stats.samples.len() < 4 && idx % 211 == 0 {
@@ -860,9 +872,11 @@ pub fn replay(doc: &Json) -> i32 {
     let inv = doc.get("invariant").and_then(|v| v.str()).unwrap_or("").to_string();
     let want_obs = doc.get("observed").and_then(|v| v.str()).unwrap_or("").to_string();
     let case = ZoneCase { label: doc.get("zone").and_then(|v| v.str()).unwrap_or("replay").to_string(), source: "replay", bytes };
-    let (instants, nanos) = match doc.get("t").and_then(|v| v.int()) {
-        Some(t) => (vec![t as i64], vec![doc.get("nanos").and_then(|v| v.int()).unwrap_or(0) as u32]),
-        None => {
+    let listed: Option<Vec<i64>> = doc.get("instants").and_then(|v| v.arr()).map(|a| a.iter().filter_map(|x| x.int().map(|i| i as i64)).collect());
+    let (instants, nanos) = match (doc.get("t").and_then(|v| v.int()), listed) {
+        (Some(t), _) => (vec![t as i64], vec![doc.get("nanos").and_then(|v| v.int()).unwrap_or(0) as u32]),
+        (None, Some(l)) if !l.is_empty() => (l, vec![0]),
+        _ => {
             let mut rng = Rng::new(1);
             (instants_for(&z, &mut rng, 200, 24), vec![0])
         }
@@ -880,7 +894,6 @@ pub fn replay(doc: &Json) -> i32 {
             } else {
                 println!("replay: a violation occurs but differs from the recorded one ([{}] {})", inv, want_obs);
             }
-            println!("VIOLATION property=C18 replay=(replayed)");
             1
         }
     }
